@@ -85,5 +85,9 @@ pub fn run(cfg: &RunCfg) -> i32 {
         opts(),
         classify,
     );
+    if !check.has_violation() {
+        check.assume("wire part: an event counts as not delivered when the predicted number has not arrived although at least 100 later requests of the same session were answered over at least 10 s; a harness-side answer timeout is inconclusive; the server's own $SYS events are not modelled there");
+        super::c03w::part(&mut check, cfg);
+    }
     check.finish()
 }
